@@ -265,7 +265,7 @@ package fasthttp
 // (from where the next call takes it) only if it was never queued or after that signal -- never on the timeout
 // branch, where the response may still arrive later and would be delivered to whoever holds the item then.
 //@ func pipelineConnClient.DoDeadline results err
-//@   property C04
+//@   property C04 C38
 //@   mode skeleton
 //@   ghost queued bool = false
 //@   ghost answered bool = false
@@ -279,4 +279,29 @@ package fasthttp
 //@     requires[released-once] released == 0
 //@     effect released = released + 1
 //@   end
+//@   ensures[success-is-an-answered-request] err == nil ==> queued && answered
+
+// pipelineConnClient.Do (C04, C38): the same hand-back discipline without a deadline. When the write queue is full the
+// oldest queued request is evicted and told ErrPipelineOverflow; if there is still no room this call gives up with
+// ErrPipelineOverflow -- only then, and only for a request that was never put on the queue (so never transmitted).
+//@ func pipelineConnClient.Do results err
+//@   property C04 C38
+//@   mode skeleton
+//@   ghost queued bool = false
+//@   ghost answered bool = false
+//@   ghost released int = 0
+//@   on send chs.chW:
+//@     effect queued = true
+//@   on recv w.done:
+//@     effect answered = true
+//@   on send wOld.done:
+//@     requires[evicted-request-is-told-overflow] wOld.err == ErrPipelineOverflow
+//@   on call pipelineConnClient.releasePipelineWork:
+//@     requires[work-item-not-in-flight] !queued || answered
+//@     requires[released-once] released == 0
+//@     effect released = released + 1
+//@   on call pipelineConnClient.ensureTLSConfig -> e:
+//@     nohavoc
+//@   end
+//@   ensures[no-answer-only-for-an-unqueued-overflow] !answered && released == 1 ==> err == ErrPipelineOverflow && !queued
 //@   ensures[success-is-an-answered-request] err == nil ==> queued && answered
